@@ -227,6 +227,7 @@ func tapBubble(c *harness.Ctx) {
 		return
 	}
 	hold := c.Cfg["hold"] != ""
+	pure := c.Cfg["pure"] != ""
 	z.Hold = hold
 	nstim := 3 + c.Choose(9, "nstimuli")
 	for i := 0; i < nstim; i++ {
@@ -234,7 +235,11 @@ func tapBubble(c *harness.Ctx) {
 		if hold {
 			w6, w7 = 6, 2
 		}
-		switch c.C.Weighted("stimulus", 8, 2, 1, 1, 1, 1, w6, w7) {
+		wf := 1
+		if pure {
+			wf = 0 // no connection faults: every run of this batch is asserted to converge
+		}
+		switch c.C.Weighted("stimulus", 8, 2, wf, wf, wf, 1, w6, w7) {
 		case 6:
 			// one watch notification reaches the client; further changes may land before the next one
 			if z.DeliverOne() {
